@@ -1,7 +1,10 @@
 package main
 
 import (
+	"errors"
 	"fmt"
+	"os"
+	"path/filepath"
 	"regexp"
 	"strconv"
 	"strings"
@@ -398,7 +401,93 @@ func c16JudgeOne(o c16Obs, sources map[string]string) (string, bool) {
 			return fmt.Sprintf("position line %d col %d lies outside %s", e.Line, e.Column, name), knownShape
 		}
 	}
+	if why := c16RawLineWrong(e, name, src); why != "" {
+		return why, knownShape
+	}
 	return "", knownShape
+}
+
+// c16RawLineWrong: whenever (*Error).RawLine() says it has the affected line, it is line e.Line of the named source.
+func c16RawLineWrong(e *pongo2.Error, name, src string) string {
+	line, avail, _ := e.RawLine()
+	if !avail {
+		return ""
+	}
+	lines := strings.Split(src, "\n")
+	want := ""
+	if e.Line >= 1 && e.Line <= len(lines) {
+		want = strings.TrimSuffix(lines[e.Line-1], "\r")
+	}
+	if line != want {
+		return fmt.Sprintf("RawLine() returns %q, but line %d of %s is %q", truncStr(line, 120), e.Line, name, truncStr(want, 120))
+	}
+	return ""
+}
+
+// c16RawLineFiles: templates that are real files (LocalFilesystemLoader): compile and execution errors at known lines
+// of an included file, of a child's block and of the base; RawLine() must be available and be that very line.
+func c16RawLineFiles(c *C) {
+	r := c.R
+	dir := filepath.Join(workerScratch, fmt.Sprintf("c16raw-%d", c.Idx))
+	os.MkdirAll(dir, 0o755)
+	defer os.RemoveAll(dir)
+	pad := func() string { return strings.Repeat("filler line\n", r.Intn(4)) }
+	files := map[string]string{
+		"base.tpl":    pad() + "base first {{ 1 }}\n" + pad() + "{% block content %}default{% endblock %}\n" + pad() + "{% block other %}{{ fail() }} in base{% endblock %}\nbase last\n",
+		"child.tpl":   "{% extends \"base.tpl\" %}\n" + pad() + "{% block content %}\n" + pad() + "  child text {{ fail() }} after\n{% endblock %}\n" + pad() + "{% block other %}fine{% endblock %}\n",
+		"incl.tpl":    pad() + "before {% include \"part.tpl\" %} after\n",
+		"part.tpl":    pad() + "part line one\n" + pad() + "   part {{ \"x\"|pluralize:\"a,b,c\" }} tail\n",
+		"broken.tpl":  pad() + "ok line\n" + pad() + "  {% if %}broken{% endif %}\n",
+		"usebase.tpl": "{% extends \"base.tpl\" %}\n{% block content %}c{% endblock %}\n",
+	}
+	for n, t := range files {
+		os.WriteFile(filepath.Join(dir, n), []byte(t), 0o644)
+	}
+	loader, err := pongo2.NewLocalFileSystemLoader(dir)
+	if err != nil {
+		c.Fail("error-position", D{"error": err.Error()})
+		return
+	}
+	set := pongo2.NewSet("c16-raw", loader)
+	ctx := pongo2.Context{"fail": func() (string, error) { return "", errors.New("c16: deliberate failure") }}
+	seen := 0
+	for _, entry := range []string{"child.tpl", "incl.tpl", "broken.tpl", "usebase.tpl"} {
+		tpl, cerr := set.FromFile(entry)
+		var e error = cerr
+		if cerr == nil {
+			_, e = tpl.Execute(ctx)
+		}
+		c.Eval(1)
+		pe, ok := e.(*pongo2.Error)
+		if !ok || pe == nil {
+			c.Fail("error-position", D{"entry": entry, "files": files, "error": errStr(e), "why": "an error with a position was expected"})
+			return
+		}
+		// walk the error and the errors quoted inside it
+		for depth := 0; depth < 5 && pe != nil; depth++ {
+			if pe.Line > 0 && pe.Filename != "" {
+				src, isFile := files[filepath.Base(pe.Filename)]
+				if isFile {
+					line, avail, _ := pe.RawLine()
+					if avail {
+						seen++
+					}
+					if why := c16RawLineWrong(pe, pe.Filename, src); why != "" || (avail && pe.Token != nil && !strings.Contains(line, pe.Token.Val)) {
+						c.Fail("error-position", D{"entry": entry, "files": files, "error": truncStr(pe.Error(), 300), "RawLine": q(line), "why": "RawLine(): " + why + " (the line must be the reported line of the named file and contain the reported token)"})
+						return
+					}
+				}
+			}
+			next, _ := pe.OrigError.(*pongo2.Error)
+			pe = next
+		}
+	}
+	if seen == 0 {
+		c.Fail("error-position", D{"files": files, "why": "RawLine() was never available for templates that are real files"})
+		return
+	}
+	c.Cover("rawline_of_real_files")
+	c.Nontrivial(fmt.Sprintf("rawline:%d", len(files["base.tpl"])+len(files["child.tpl"])))
 }
 
 var reLineCol = regexp.MustCompile(`Line \d+ Col \d+`)
@@ -617,6 +706,10 @@ func c16Run(c *C) {
 	eb, lr, _ := c16Plan(c.Tier)
 	if c.Idx >= eb+lr && (c.Idx-eb-lr)%400 == 7 {
 		c16DeepNesting(c)
+		return
+	}
+	if c.Idx >= eb+lr && (c.Idx-eb-lr)%400 == 9 {
+		c16RawLineFiles(c)
 		return
 	}
 	switch {
